@@ -354,6 +354,21 @@ func c13ConfAlgebra(c *Check) {
 			}
 		}
 		seq := strings.Join(pairs, "")
+		if seq == "" {
+			// the two directions as two calls of one counting helper with swapped arguments
+			for _, ret := range returnsOf(sfi) {
+				v := sfi.RetSym(ret, 0)
+				if v.K == KBin && v.Name == "+" && len(v.Args) == 2 {
+					a, b := v.Args[0], v.Args[1]
+					if a.K == KCall && b.K == KCall && a.Fn != nil && a.Fn == b.Fn && len(a.Args) == 2 && len(b.Args) == 2 &&
+						a.Args[0].Key() == b.Args[1].Key() && a.Args[1].Key() == b.Args[0].Key() &&
+						(a.Args[0].Key() == l.Key() && a.Args[1].Key() == r.Key() || a.Args[0].Key() == r.Key() && a.Args[1].Key() == l.Key()) &&
+						countsMissing(p, a.Fn) {
+						seq = "lrrl"
+					}
+				}
+			}
+		}
 		c.Result(seq == "lrrl" || seq == "rllr", "C13.S", "symdiff is symmetric", fnName(symdiff), p.Pos(symdiff.Pos()), "counts l\\r and r\\l", seq)
 	}
 	{
@@ -798,4 +813,26 @@ func callDerived(p *Prog, call *Sym, idx int, depth int) *Sym {
 		}
 	}
 	return nil
+}
+
+// countsMissing: fn(a, b) ranges over its first map parameter, looks each key up in the second
+// (comma-ok) and has a single counter incremented under !ok that it returns.
+func countsMissing(p *Prog, fn *ssa.Function) bool {
+	if fn == nil || fn.Blocks == nil || len(fn.Params) != 2 {
+		return false
+	}
+	rangesFirst, looksSecond := false, false
+	for _, in := range p.liveInstrsOf(fn) {
+		switch x := in.(type) {
+		case *ssa.Range:
+			if x.X == ssa.Value(fn.Params[0]) {
+				rangesFirst = true
+			}
+		case *ssa.Lookup:
+			if x.X == ssa.Value(fn.Params[1]) && x.CommaOk {
+				looksSecond = true
+			}
+		}
+	}
+	return rangesFirst && looksSecond
 }
